@@ -5,6 +5,8 @@ import Girc.Proofs.TransParseEvent
 import Girc.Proofs.TransTagsBytes
 import Girc.Proofs.TransEventBytes
 import Girc.Proofs.TransEventHelpers
+import Girc.Proofs.TransPhase4B
+import Girc.Proofs.TransSplit
 /-
   Tie (TieWire): the function bodies regenerated from the Go source on every run (Girc/Gen/Funcs.lean, written by
   tools/extract/translate.go) equal the hand-written models the property theorems of C01, C02 and C03 are about, for ALL inputs.
@@ -159,5 +161,64 @@ example : Fn.Event_IsFromChannel (some { source := some ⟨[0x6E], [], []⟩, co
     .ok true := by rfl
 example : Fn.Event_IsFromUser (some { source := some ⟨[0x6E], [], []⟩, command := PRIVMSG, params := [[0x23, 0x63], [0x78]] }) =
     .ok false := by rfl
+
+/-! ### phase 4: the remaining value-level helpers of cap_tags.go and event.go (models: Model/Phase4Helpers.lean) -/
+
+theorem tie_Tags_Count : ∀ t : Option Tags, Fn.Tags_Count t = .ok (tagsCount t) := Proofs.Trans.Tags_Count_eq
+example : Fn.Tags_Count none = .ok 0 := by rfl
+example : Fn.Tags_Count (some [([0x61], [0x78]), ([0x62], [])]) = .ok 2 := by rfl
+
+/-- `Tags.Keys`: the keys in the order the map is ranged over (= the order of the representing list) … -/
+theorem tie_Tags_Keys : ∀ t : Option Tags, Fn.Tags_Keys t = .ok (Go.mapKeys t) := Proofs.Trans.Tags_Keys_eq
+/-- … so two representations of the same map give permutations of the same keys ("unsorted" in the Go doc comment). -/
+theorem tie_Tags_Keys_order : ∀ m m' : Tags, List.Perm m m' →
+    ∃ ks ks', Fn.Tags_Keys (some m) = .ok ks ∧ Fn.Tags_Keys (some m') = .ok ks' ∧ List.Perm ks ks' :=
+  Proofs.Trans.Tags_Keys_perm
+example : Fn.Tags_Keys (some [([0x62], [0x78]), ([0x61], [])]) = .ok [[0x62], [0x61]] := by rfl
+example : Fn.Tags_Keys none = .ok [] := by rfl
+
+/-- `Tags.Equals` compares the `account` tag only. -/
+theorem tie_Tags_Equals : ∀ t tt : Option Tags, Fn.Tags_Equals t tt = .ok (tagsEquals t tt) := Proofs.Trans.Tags_Equals_eq
+-- {"account": "a", "x": "1"} equals {"account": "a"}; a nil map equals a map without the tag
+example : Fn.Tags_Equals (some [([0x61, 0x63, 0x63, 0x6F, 0x75, 0x6E, 0x74], [0x61]), ([0x78], [0x31])])
+    (some [([0x61, 0x63, 0x63, 0x6F, 0x75, 0x6E, 0x74], [0x61])]) = .ok true := by rfl
+example : Fn.Tags_Equals none (some [([0x78], [0x31])]) = .ok true := by rfl
+
+/-- `Tags.Remove`: (was the key there?, the caller's map afterwards). -/
+theorem tie_Tags_Remove : ∀ (t : Option Tags) (key : Bytes), Fn.Tags_Remove t key = .ok (tagsRemove t key) :=
+  Proofs.Trans.Tags_Remove_eq
+example : Fn.Tags_Remove (some [([0x61], [0x78]), ([0x62], [])]) [0x61] = .ok (true, some [([0x62], [])]) := by rfl
+example : Fn.Tags_Remove (some [([0x61], [0x78])]) [0x62] = .ok (false, some [([0x61], [0x78])]) := by rfl
+example : Fn.Tags_Remove none [0x62] = .ok (false, none) := by rfl
+
+/-- `(*Event).Equals`; the Go code has no nil guard: a nil receiver or argument panics. -/
+theorem tie_Event_Equals : ∀ e ev : Event, Fn.Event_Equals (some e) (some ev) = .ok (eventEquals e ev) :=
+  Proofs.Trans.Event_Equals_eq
+theorem tie_Event_Equals_nil_left : ∀ x : Option Event, Fn.Event_Equals none x = .error .nilDeref :=
+  Proofs.Trans.Event_Equals_nil_left
+theorem tie_Event_Equals_nil_right : ∀ e : Event, Fn.Event_Equals (some e) none = .error .nilDeref :=
+  Proofs.Trans.Event_Equals_nil_right
+example : Fn.Event_Equals (some { command := PRIVMSG, params := [[0x23, 0x63], [0x78]] })
+    (some { command := PRIVMSG, params := [[0x23, 0x63], [0x78]], tags := some [([0x78], [0x31])] }) = .ok true := by rfl
+example : Fn.Event_Equals (some { command := PRIVMSG, params := [[0x23, 0x63], [0x78]] })
+    (some { command := PRIVMSG, params := [[0x23, 0x63], [0x79]] }) = .ok false := by rfl
+
+theorem tie_Event_String : ∀ e : Event, Fn.Event_String (some e) = .ok (eventBytes e) := Proofs.Trans.Event_String_eq
+theorem tie_Event_String_nil : Fn.Event_String none = .error .nilDeref := Proofs.Trans.Event_String_nil
+example : Fn.Event_String (some { command := [0x50, 0x49, 0x4E, 0x47], params := [[0x78]] }) =
+    .ok [0x50, 0x49, 0x4E, 0x47, 0x20, 0x78] := by rfl
+
+/-- `(*Source).Copy` and `(*Event).Copy` at VALUE level: the copy equals the argument, nil ⇒ nil.  (That the copy shares no
+    memory with the original is C13's subject, not the value model's.)  The hypothesis on the tags is the representation
+    invariant of a Go map; `tie_Event_Copy_go` is the exact value for every association list. -/
+theorem tie_Source_Copy : ∀ s : Option Source, Fn.Source_Copy s = .ok s := Proofs.Trans.Source_Copy_opt
+theorem tie_Event_Copy : ∀ e : Event, (∀ m, e.tags = some m → (AMap.keys m).Nodup) → Fn.Event_Copy (some e) = .ok (some e) :=
+  Proofs.Trans.Event_Copy_eq
+theorem tie_Event_Copy_go : ∀ e : Event,
+    Fn.Event_Copy (some e) = .ok (some { e with tags := e.tags.map Proofs.Trans.tagsCopy }) := Proofs.Trans.Event_Copy_go
+theorem tie_Event_Copy_nil : Fn.Event_Copy none = .ok none := Proofs.Trans.Event_Copy_nil
+example : Fn.Event_Copy (some { tags := some [([0x61], [0x78])], source := some ⟨[0x6E], [0x75], [0x68]⟩, command := PRIVMSG, params := [[0x23, 0x63], [0x78]] }) =
+    .ok (some { tags := some [([0x61], [0x78])], source := some ⟨[0x6E], [0x75], [0x68]⟩, command := PRIVMSG, params := [[0x23, 0x63], [0x78]] }) := by rfl
+example : Fn.Source_Copy (some ⟨[0x6E], [0x75], [0x68]⟩) = .ok (some ⟨[0x6E], [0x75], [0x68]⟩) := by rfl
 
 end Girc.Props.TieWire
